@@ -51,7 +51,7 @@ def ref_clip(lines, ln, col, end_ln, end_col):
     return ln, col, end_ln, end_col
 
 
-def _mk_putsrc(key, ti):
+def _mk_putsrc(key, ti, part):
     src = CARRIERS[key]
     text = TEXTS[ti]
     lines0 = src.split('\n')
@@ -60,6 +60,10 @@ def _mk_putsrc(key, ti):
     def fn(ln: int, col: int, end_ln: int, end_col: int):
         # symbolic over all of Z; the reference clips, then the clipped values are pinned (finite after clipping)
         r = ref_clip(lines0, ln, col, end_ln, end_col)
+        if part == 'reversed':
+            assume(r is None)
+        else:
+            assume(r is not None and r[0] == part[0] and r[2] == part[1])     # this cell: rectangles which clip to these two lines
         with pc.untraced():
             root = FST(src, 'exec')
             pc.reset_globals()
@@ -169,13 +173,17 @@ def _mk_rawput(key):
 FNR = ['fst.fst.FST.put_src', 'fst.fst_raw._reparse_raw', 'fst.fst_raw._reparse_raw_stmtlike', 'fst.fst_raw._reparse_raw_base', 'fst.fst_misc.clip_src_loc',
        'fst.fst.FST.find_contains_loc', 'fst.fst_core._put_src', 'fst.fst_core._offset', 'fst.fst_core._set_ast']
 CELLS = []
-_Q = {('ifblock', 0), ('ifblock', 5), ('elif', 0), ('semi', 3), ('uni', 2), ('tryexc', 0), ('def', 1), ('match', 0)}
+_Q = {('ifblock', 0), ('ifblock', 5), ('semi', 3), ('uni', 2)}
 for _k in CARRIERS:
+    _nl = len(CARRIERS[_k].split('\n'))
     for _ti in range(len(TEXTS)):
-        CELLS.append(Cell(f'P1.put_src[{_k},{TEXTS[_ti]!r}]', _mk_putsrc(_k, _ti), 'P', FNR,
-                          f'carrier {_k!r} ({len(CARRIERS[_k].splitlines())} lines); replacement text {TEXTS[_ti]!r}; rectangle (ln, col, end_ln, end_col) symbolic over all of Z^4 (clipped, negative, reversed)',
-                          tier='quick' if (_k, _ti) in _Q else 'thorough', budget=900, per_path=60,
-                          out="other programs / texts; reparse() with changed parse parameters; 'end' coordinates (C03-K1 covers their clipping)", reset=pc.reset_globals))
+        _parts = ['reversed'] + [(a_, b_) for a_ in range(_nl) for b_ in range(a_, _nl)]
+        for _p in _parts:
+            CELLS.append(Cell(f'P1.put_src[{_k},{TEXTS[_ti]!r},lines={_p if _p == "reversed" else str(_p[0]) + "-" + str(_p[1])}]', _mk_putsrc(_k, _ti, _p), 'P', FNR,
+                              f'carrier {_k!r}; replacement text {TEXTS[_ti]!r}; rectangle (ln, col, end_ln, end_col) symbolic over all of Z^4 restricted to those that '
+                              + ('are reversed (end before start)' if _p == 'reversed' else f'clip to lines {_p[0]}..{_p[1]}'),
+                              tier='quick' if (_k, _ti) in _Q else 'thorough', budget=600, per_path=60,
+                              out="other programs / texts; reparse() with changed parse parameters; 'end' coordinates (C03-K1 covers their clipping)", reset=pc.reset_globals))
 for _k in CARRIERS:
     CELLS.append(Cell(f'P2.raw_replace[{_k}]', _mk_rawput(_k), 'P', FNR + ['fst.fst_put_one._put_one'],
                       f'carrier {_k!r}; node.replace(code, raw=True) for every positioned node (symbolic ordinal) x {len(REPL)} codes (finite choice, solver-enumerated)',
